@@ -109,7 +109,7 @@ def run(ctx):
     drift = []
     rej = collections.Counter()
     if "model-build" not in ctx["broken"]:
-        sub = sorted(R.sample(range(0, len(cases), 2), min(len(cases) // 2, 3000 if tier == "quick" else 15000)))
+        sub = sorted(R.sample(range(0, len(cases), 2), (min(len(cases) // 2, 3000) if tier == "quick" else len(cases) // 2)))
         mres = Model().run([case_model(cases[i]) for i in sub])
         for i, m in zip(sub, mres):
             if "bad" in m:
